@@ -22,6 +22,10 @@
 #include <stdexcept>
 #endif
 #include <algorithm>
+#include <signal.h>
+#include <sys/wait.h>
+#include <unistd.h>
+#include <errno.h>
 
 namespace rs {
 
@@ -61,6 +65,54 @@ static void pushEv(int type, int test, int phase = 0, int op = 0, int plugin = -
 static int shellIndex(const UtestShell* s) { for (size_t i = 0; i < RS.shells.size(); i++) if (RS.shells[i] == s) return (int)i; return -1; }
 
 struct Foreign { int x; };
+
+// ------------------------------------------------------------------ separate-process seams (C11)
+struct ProcState {
+    bool inChild, synthetic; int (*realFork)(); int (*realWaitPid)(int, int*, int);
+    int test; Vec<Op> script; size_t pos; int64_t eintrLeft; int nextFake; int waitCalls;
+    Vec<int> livePids;
+};
+static ProcState PS;
+static void procLog(int what, int64_t v) { RS.o->procLog.push_back(PS.test); RS.o->procLog.push_back(what); RS.o->procLog.push_back(v); }
+static int simFork() {
+    PS.test = RS.currentTest; PS.script.clear(); PS.pos = 0; PS.eintrLeft = -1; PS.waitCalls = 0;
+    if (PS.test >= 0) { const Group& T = RS.d->groups[(size_t)RS.testGroups[(size_t)PS.test]]; for (size_t i = 0; i < T.ops.size(); i++) if (T.ops[i].phase == PH_PROC) PS.script.push_back(T.ops[i]); }
+    procLog(1, 0);
+    for (size_t i = 0; i < PS.script.size(); i++) if (PS.script[i].kind == K_FORK_FAIL) { procLog(5, 0); fired("fork_fail"); errno = EAGAIN; return -1; }
+    if (PS.synthetic) return 1000000 + PS.nextFake++;
+    fflush(0);
+    int pid = PS.realFork();
+    if (pid == 0) { PS.inChild = true; return 0; }
+    if (pid > 0) PS.livePids.push_back(pid);
+    return pid;
+}
+static int simWaitPid(int pid, int* status, int options) {
+    procLog(2, ++PS.waitCalls);
+    while (PS.pos < PS.script.size()) {
+        const Op& o = PS.script[PS.pos];
+        if (o.kind == K_W_EINTR) {
+            if (PS.eintrLeft < 0) PS.eintrLeft = o.a;
+            if (PS.eintrLeft > 0) { PS.eintrLeft--; fired("wait_eintr"); errno = EINTR; return -1; }
+            PS.eintrLeft = -1; PS.pos++; continue;
+        }
+        if (!PS.synthetic) { PS.pos++; continue; }
+        PS.pos++;
+        if (o.kind == K_W_ERR) { fired("wait_error"); errno = (int)o.a; return -1; }
+        if (o.kind == K_W_STOP) { fired("child_stop"); *status = (int)((o.a << 8) | 0x7f); return pid; }
+        if (o.kind == K_W_EXIT) { fired("child_exit"); *status = (int)((o.a & 0xff) << 8); return pid; }
+        if (o.kind == K_W_SIGNAL) { fired("child_signal"); *status = (int)(o.a | (o.b ? 0x80 : 0)); return pid; }
+    }
+    if (PS.synthetic) { procLog(4, PS.waitCalls); *status = 0; return pid; }     // the code under test keeps waiting although the child is gone: reported as a hang
+    int r = PS.realWaitPid(pid, status, options);
+    if (r == pid && (WIFEXITED(*status) || WIFSIGNALED(*status))) { for (size_t i = 0; i < PS.livePids.size(); i++) if (PS.livePids[i] == pid) { PS.livePids.erase(PS.livePids.begin() + (long)i); break; } fired(WIFSIGNALED(*status) ? "real_child_killed_by_signal" : "real_child_exited"); }
+    else if (r == pid && WIFSTOPPED(*status)) fired("real_child_stopped");
+    return r;
+}
+extern "C" int __real_kill(pid_t pid, int sig);
+extern "C" int __wrap_kill(pid_t pid, int sig) {
+    if (RS.o && PS.realFork) { procLog(3, sig); if (pid >= 1000000) return 0; }
+    return __real_kill(pid, sig);
+}
 
 static void fillPattern(void* p, size_t n, int slot) { unsigned char* c = (unsigned char*)p; for (size_t i = 0; i < n; i++) c[i] = (unsigned char)(0x41 + (slot + (int)i) % 26); }
 
@@ -150,6 +202,10 @@ static void execOp(const Group& T, const Op& o) {
     }
     case K_EXPECT_LEAKS: EXPECT_N_LEAKS((size_t)o.a); break;
     case K_IGNORE_LEAKS: IGNORE_ALL_LEAKS_IN_TEST(); break;
+    case K_DIE_SIGNAL: if (PS.inChild) { fflush(0); raise((int)o.a); } break;
+    case K_DIE_EXIT: if (PS.inChild) _exit((int)o.a); break;
+    case K_DIE_ABORT: if (PS.inChild) { signal(SIGABRT, SIG_DFL); abort(); } break;
+    case K_DIE_STOP: if (PS.inChild) raise(SIGSTOP); break;
     case K_PTR_SET: UT_PTR_SET(g_tgt[o.a % N_TARGETS], (void*)&g_val[o.b % N_VALUES]); break;
     default: break;
     }
@@ -313,6 +369,9 @@ void executeRun(const Desc& d, Obs& o) {
     if (simRand().mode) fired("rand_adversarial");
     SimJmp& J = simJmp(); o.depthAtStart = J.depth(); J.maxDepth = J.depth();
 
+    if (!PS.realFork) { PS.realFork = PlatformSpecificFork; PS.realWaitPid = PlatformSpecificWaitPid; PlatformSpecificFork = simFork; PlatformSpecificWaitPid = simWaitPid; }
+    PS.inChild = false; PS.synthetic = d.pi("synthetic") != 0; PS.nextFake = 0; PS.livePids.clear(); PS.script.clear(); PS.pos = 0; PS.eintrLeft = -1; PS.test = -1;
+
     det->increaseAllocationStage();        // everything the run leaves behind is released again after the run
 
     TestRegistry reg;
@@ -362,6 +421,8 @@ void executeRun(const Desc& d, Obs& o) {
     savedReg->setCurrentRegistry(0);
     (void)savedReg;
 
+    for (size_t i = 0; i < PS.livePids.size(); i++) { __real_kill(PS.livePids[i], SIGKILL); __real_kill(PS.livePids[i], SIGCONT); int st; while (PS.realWaitPid(PS.livePids[i], &st, 0) < 0 && errno == EINTR) {} }
+    PS.livePids.clear();
     o.depthAtEnd = J.depth(); o.maxDepth = J.maxDepth;
     o.ctxOkAtEnd = UtestShell::getCurrent() == RS.outsideShell;
     o.finalProbe = probePointers();
@@ -382,7 +443,7 @@ void executeRun(const Desc& d, Obs& o) {
     for (size_t i = 0; i < plugins.size(); i++) { plugins[i]->~SimPlugin(); ::free(plugins[i]); }
     for (size_t i = 0; i < owned.size(); i++) { owned[i]->~UtestShell(); ::free(owned[i]); }
 
-    static const char* const firedNames[K_COUNT] = { 0, 0, 0, "fail_check_cpp", "fail_check_c_longjmp", "throw_std", "throw_foreign", 0, 0, 0, 0, 0, 0, 0, 0, 0 };
+    static const char* const firedNames[K_COUNT] = { 0, 0, 0, "fail_check_cpp", "fail_check_c_longjmp", "throw_std", "throw_foreign", 0, 0, 0, 0, 0, 0, 0, 0, 0, 0, 0, 0, 0, 0, 0, 0, 0, 0, 0 };
     for (int k = 0; k < K_COUNT; k++) { if (firedNames[k] && g_fired[k]) fired(firedNames[k], g_fired[k]); g_fired[k] = 0; }
     SimIO& io = simIO();
     o.console = io.console; o.writesAfterClose = io.writesAfterClose; o.badHandle = io.badHandle;
